@@ -1,281 +1,352 @@
 import CollectionsC.Proofs.MergeSort
 /-! One history step of the doubly linked list model refines one step of the ideal pair of lists
-(bundle used by `Properties/C04.lean`). -/
+(bundle used by `Properties/C04.lean`).  The two lists may sit on different allocator triples
+`t1`, `t2`; every operation works through the triple of the list whose header the C code reads
+(`list1->mem_calloc` …), so its ledger effect concerns the destination's triple only. -/
 namespace CC
 open CC Chain
 open CC.Spec
 open CC.Spec.LSeq (Op Out Params)
 
-/-- ledger effect of an operation: no fault raised, C-library ledger untouched, `live` moved by
-`plus - minus` -/
-structure Mem.Eff (m m' : Mem) (plus minus : Nat) (ref : Nat := 0) : Prop where
+theorem Mem.allocT_nrefused (m : Mem) (t : Triple) :
+    (m.allocT t).2.nrefused = m.nrefused + (if (m.allocT t).1 then 0 else 1) := by
+  cases t
+  · obtain ⟨sched, _, _, _, _, _, _, _, _, _⟩ := m
+    cases sched with
+    | nil => rfl
+    | cons b r => cases b <;> rfl
+  · rfl
+theorem Mem.freeT_nrefused (m : Mem) (t : Triple) : (m.freeT t).nrefused = m.nrefused := by
+  cases t
+  · simp only [Mem.freeT_conf]; unfold Mem.free; split <;> rfl
+  · simp only [Mem.freeT]; split <;> rfl
+theorem Mem.freeT_sched (m : Mem) (t : Triple) : (m.freeT t).sched = m.sched := by
+  cases t
+  · simp only [Mem.freeT_conf]; unfold Mem.free; split <;> rfl
+  · simp only [Mem.freeT]; split <;> rfl
+theorem Mem.freeN_sched (t : Triple) : ∀ (n : Nat) (m : Mem), (Mem.freeN t n m).sched = m.sched
+  | 0, _ => rfl
+  | k + 1, m => by simp only [Mem.freeN]; rw [Mem.freeN_sched t k, Mem.freeT_sched]
+theorem Mem.freeN_nrefused (t : Triple) : ∀ (n : Nat) (m : Mem), (Mem.freeN t n m).nrefused = m.nrefused
+  | 0, _ => rfl
+  | k + 1, m => by simp only [Mem.freeN]; rw [Mem.freeN_nrefused t k, Mem.freeT_nrefused]
+theorem Mem.allocChain_nil (t : Triple) : ∀ (k got : Nat) (m : Mem), m.sched = [] →
+    (Mem.allocChain t k got m).1 = true ∧ (Mem.allocChain t k got m).2.sched = []
+  | 0, _, m, h => ⟨rfl, h⟩
+  | k + 1, got, m, h => by
+    have := Mem.allocT_nil m t h
+    simp only [Mem.allocChain, this.1, Bool.not_true, Bool.false_eq_true, if_false]
+    exact Mem.allocChain_nil t k (got + 1) (m.allocT t).2 this.2
+theorem Mem.allocChain_nrefused (t : Triple) : ∀ (k got : Nat) (m : Mem),
+    (Mem.allocChain t k got m).2.nrefused = m.nrefused + (if (Mem.allocChain t k got m).1 then 0 else 1)
+  | 0, _, m => by simp [Mem.allocChain]
+  | k + 1, got, m => by
+    have h := Mem.allocT_nrefused m t
+    by_cases ha : (m.allocT t).1 = true
+    · have ih := Mem.allocChain_nrefused t k (got + 1) (m.allocT t).2
+      simp only [Mem.allocChain, ha, Bool.not_true, Bool.false_eq_true, if_false]
+      rw [ih, h]; simp [ha]
+    · simp only [Bool.not_eq_true] at ha
+      simp only [Mem.allocChain, ha, Bool.not_false, if_true, Bool.false_eq_true, if_false, Mem.freeN_nrefused] at h ⊢
+      exact h
+
+/-- ledger effect of an operation that works through the triple `t`: no fault raised, the other
+allocator's counters untouched, `liveT t` moved by `plus - minus`, `ref` refusals -/
+structure Mem.Eff (t : Triple) (m m' : Mem) (plus minus : Nat) (ref : Nat := 0) : Prop where
   fault : m'.fault = m.fault
-  libc : m'.libc = m.libc
-  live : m'.live + minus = m.live + plus
+  live : m'.liveT t + minus = m.liveT t + plus
+  frame : Mem.Frame t m m'
   sched : m.sched = [] → m'.sched = []
   nref : m'.nrefused = m.nrefused + ref
 
-theorem Mem.alloc_nrefused (m : Mem) :
-    m.alloc.2.nrefused = m.nrefused + (if m.alloc.1 then 0 else 1) := by
-  unfold Mem.alloc; split <;> simp
-theorem Mem.free_nrefused (m : Mem) : m.free.nrefused = m.nrefused := by unfold Mem.free; split <;> rfl
-theorem Mem.freeN_nrefused : ∀ (n : Nat) (m : Mem), (Mem.freeN n m).nrefused = m.nrefused
-  | 0, _ => rfl
-  | k + 1, m => by simp only [Mem.freeN]; rw [Mem.freeN_nrefused k, Mem.free_nrefused]
-theorem Mem.allocChain_nrefused : ∀ (k got : Nat) (m : Mem),
-    (Mem.allocChain k got m).2.nrefused = m.nrefused + (if (Mem.allocChain k got m).1 then 0 else 1)
-  | 0, _, m => by simp [Mem.allocChain]
-  | k + 1, got, m => by
-    have h := Mem.alloc_nrefused m
-    by_cases ha : m.alloc.1 = true
-    · have ih := Mem.allocChain_nrefused k (got + 1) m.alloc.2
-      simp only [Mem.allocChain, ha, Bool.not_true, Bool.false_eq_true, if_false]
-      rw [ih, h]; simp [ha]
-    · simp only [Mem.allocChain, ha, Bool.not_false, if_true, Bool.false_eq_true, if_false] at h ⊢
-      simp only [Bool.not_eq_true] at ha
-      simp only [ha, Bool.not_false, if_true, Bool.false_eq_true, if_false, Mem.freeN_nrefused] at h ⊢
-      exact h
-
-theorem Mem.free_sched (m : Mem) : m.free.sched = m.sched := by unfold Mem.free; split <;> rfl
-theorem Mem.freeN_sched : ∀ (n : Nat) (m : Mem), (Mem.freeN n m).sched = m.sched
-  | 0, _ => rfl
-  | k + 1, m => by simp only [Mem.freeN]; rw [Mem.freeN_sched k, Mem.free_sched]
-theorem Mem.allocChain_nil : ∀ (k got : Nat) (m : Mem), m.sched = [] →
-    (Mem.allocChain k got m).1 = true ∧ (Mem.allocChain k got m).2.sched = []
-  | 0, _, m, h => ⟨rfl, h⟩
-  | k + 1, got, m, h => by
-    have := Mem.alloc_nil m h
-    simp only [Mem.allocChain, this.1, Bool.not_true, Bool.false_eq_true, if_false]
-    exact Mem.allocChain_nil k (got + 1) m.alloc.2 this.2
-
-theorem Mem.Eff.rfl' (m : Mem) : Mem.Eff m m 0 0 := ⟨rfl, rfl, rfl, id, rfl⟩
-theorem Mem.eff_alloc_true (m : Mem) (h : m.alloc.1 = true) : Mem.Eff m m.alloc.2 1 0 := by
-  have := Mem.alloc_fst_true m h; exact ⟨this.2.1, this.2.2, by omega, fun hs => (Mem.alloc_nil m hs).2, by rw [Mem.alloc_nrefused, h]; rfl⟩
-theorem Mem.eff_alloc_false (m : Mem) (h : m.alloc.1 = false) : Mem.Eff m m.alloc.2 0 0 1 := by
-  have := Mem.alloc_fst_false m h; exact ⟨this.2.1, this.2.2, by omega, fun hs => (Mem.alloc_nil m hs).2, by rw [Mem.alloc_nrefused, h]; rfl⟩
-theorem Mem.eff_free (m : Mem) (h : 0 < m.live) : Mem.Eff m m.free 0 1 := by
-  have := Mem.free_live m h; exact ⟨this.2.1, this.2.2, by omega, fun hs => by rw [Mem.free_sched]; exact hs, Mem.free_nrefused m⟩
-theorem Mem.eff_freeN (m : Mem) (n : Nat) (h : n ≤ m.live) : Mem.Eff m (Mem.freeN n m) 0 n := by
-  have := Mem.freeN_live n m h; exact ⟨this.2.1, this.2.2, by omega, fun hs => by rw [Mem.freeN_sched]; exact hs, Mem.freeN_nrefused n m⟩
-theorem Mem.eff_allocChain_true (m : Mem) (k : Nat) (h : (m.allocChain k 0).1 = true) : Mem.Eff m (m.allocChain k 0).2 k 0 := by
-  have := Mem.allocChain_spec k 0 m (Nat.zero_le _); exact ⟨this.2.2.1, this.2.2.2, by have := this.1 h; omega, fun hs => (Mem.allocChain_nil k 0 m hs).2, by rw [Mem.allocChain_nrefused, h]; rfl⟩
-theorem Mem.eff_allocChain_false (m : Mem) (k : Nat) (h : (m.allocChain k 0).1 = false) : Mem.Eff m (m.allocChain k 0).2 0 0 1 := by
-  have := Mem.allocChain_spec k 0 m (Nat.zero_le _); exact ⟨this.2.2.1, this.2.2.2, by have := this.2.1 h; omega, fun hs => (Mem.allocChain_nil k 0 m hs).2, by rw [Mem.allocChain_nrefused, h]; rfl⟩
-theorem Mem.Eff.trans {m1 m2 m3 : Mem} {p1 q1 p2 q2 r1 r2 : Nat} (h1 : Mem.Eff m1 m2 p1 q1 r1) (h2 : Mem.Eff m2 m3 p2 q2 r2) :
-    Mem.Eff m1 m3 (p1 + p2) (q1 + q2) (r1 + r2) :=
-  ⟨by rw [h2.fault, h1.fault], by rw [h2.libc, h1.libc], by have := h1.live; have := h2.live; omega,
+theorem Mem.Eff.rfl' (t : Triple) (m : Mem) : Mem.Eff t m m 0 0 := ⟨rfl, rfl, Mem.Frame.rfl' t m, id, rfl⟩
+theorem Mem.eff_alloc_true (t : Triple) (m : Mem) (h : (m.allocT t).1 = true) : Mem.Eff t m (m.allocT t).2 1 0 := by
+  have := Mem.allocT_fst_true m t h
+  exact ⟨this.2, by omega, Mem.frame_allocT t m, fun hs => (Mem.allocT_nil m t hs).2, by rw [Mem.allocT_nrefused, h]; rfl⟩
+theorem Mem.eff_alloc_false (t : Triple) (m : Mem) (h : (m.allocT t).1 = false) : Mem.Eff t m (m.allocT t).2 0 0 1 := by
+  have := Mem.allocT_fst_false m t h
+  exact ⟨this.2.1, by omega, Mem.frame_allocT t m, fun hs => (Mem.allocT_nil m t hs).2, by rw [Mem.allocT_nrefused, h]; rfl⟩
+theorem Mem.eff_free (t : Triple) (m : Mem) (h : 0 < m.liveT t) : Mem.Eff t m (m.freeT t) 0 1 := by
+  have := Mem.freeT_live m t h
+  exact ⟨this.2, by omega, Mem.frame_freeT t m, fun hs => by rw [Mem.freeT_sched]; exact hs, Mem.freeT_nrefused m t⟩
+theorem Mem.eff_freeN (t : Triple) (m : Mem) (n : Nat) (h : n ≤ m.liveT t) : Mem.Eff t m (Mem.freeN t n m) 0 n := by
+  have := Mem.freeN_live t n m h
+  exact ⟨this.2.1, by omega, this.2.2, fun hs => by rw [Mem.freeN_sched]; exact hs, Mem.freeN_nrefused t n m⟩
+theorem Mem.eff_allocChain_true (t : Triple) (m : Mem) (k : Nat) (h : (m.allocChain t k 0).1 = true) :
+    Mem.Eff t m (m.allocChain t k 0).2 k 0 := by
+  have := Mem.allocChain_spec t k 0 m (Nat.zero_le _)
+  exact ⟨this.2.2.1, by have := this.1 h; omega, this.2.2.2, fun hs => (Mem.allocChain_nil t k 0 m hs).2,
+    by rw [Mem.allocChain_nrefused, h]; rfl⟩
+theorem Mem.eff_allocChain_false (t : Triple) (m : Mem) (k : Nat) (h : (m.allocChain t k 0).1 = false) :
+    Mem.Eff t m (m.allocChain t k 0).2 0 0 1 := by
+  have := Mem.allocChain_spec t k 0 m (Nat.zero_le _)
+  exact ⟨this.2.2.1, by have := this.2.1 h; omega, this.2.2.2, fun hs => (Mem.allocChain_nil t k 0 m hs).2,
+    by rw [Mem.allocChain_nrefused, h]; rfl⟩
+theorem Mem.Eff.trans {t : Triple} {m1 m2 m3 : Mem} {p1 q1 p2 q2 r1 r2 : Nat} (h1 : Mem.Eff t m1 m2 p1 q1 r1)
+    (h2 : Mem.Eff t m2 m3 p2 q2 r2) : Mem.Eff t m1 m3 (p1 + p2) (q1 + q2) (r1 + r2) :=
+  ⟨by rw [h2.fault, h1.fault], by have := h1.live; have := h2.live; omega, h1.frame.trans h2.frame,
    fun hs => h2.sched (h1.sched hs), by rw [h2.nref, h1.nref]; omega⟩
 
-/-- what one step must satisfy with respect to the ideal step on `(a, b)` -/
-structure StepOk (dbl : Bool) (P : Params) (a b : List Nat) (op : Op) (m : Mem)
-    (r : Out × (Chain × Chain) × Mem) (a' b' : List Nat) : Prop where
-  state : r.2.1 = (ofList a', ofList b')
-  atomic : r.1.st = some .errAlloc → a' = a ∧ b' = b ∧ r.1 = { st := some .errAlloc }
+/-- node blocks held through the triple `t` by a pair of lists on the triples `t1`, `t2` -/
+def ownedBy (t1 t2 : Triple) (a b : List Nat) (t : Triple) : Nat :=
+  (if t1 = t then a.length else 0) + (if t2 = t then b.length else 0)
+
+/-- what one step must satisfy with respect to the ideal step on `(a, b)`; `t1' t2'` are the triples
+of the resulting pair (exchanged by `swapRoles`, otherwise unchanged) -/
+structure StepOk (dbl : Bool) (P : Params) (t1 t2 : Triple) (a b : List Nat) (op : Op) (m : Mem)
+    (r : Out × (Chain × Chain) × Mem) (a' b' : List Nat) (t1' t2' : Triple) : Prop where
+  state : r.2.1 = (ofList t1' a', ofList t2' b')
+  triples : (t1' = t1 ∧ t2' = t2) ∨ (t1' = t2 ∧ t2' = t1)
+  atomic : r.1.st = some .errAlloc → a' = a ∧ b' = b ∧ t1' = t1 ∧ t2' = t2 ∧ r.1 = { st := some .errAlloc }
   refines : r.1.st ≠ some .errAlloc → (r.1, (a', b')) = LSeq.step dbl P (a, b) op
   fault : r.2.2.fault = m.fault
-  libc : r.2.2.libc = m.libc
-  ledger : r.2.2.live + (a.length + b.length) = m.live + (a'.length + b'.length)
+  frame : Mem.Frame t1 m r.2.2
+  ledger : ∀ t, r.2.2.liveT t + ownedBy t1 t2 a b t = m.liveT t + ownedBy t1' t2' a' b' t
   nosched : m.sched = [] → r.2.2.sched = [] ∧ r.1.st ≠ some .errAlloc
   refused_iff : r.1.st = some .errAlloc ↔ m.nrefused < r.2.2.nrefused
 
-
-theorem StepOk.of {dbl : Bool} {P : Params} {a b : List Nat} {op : Op} {m : Mem} {r : Out × (Chain × Chain) × Mem}
-    (out : Out) (a' b' : List Nat) (m' : Mem) (p q : Nat)
-    (hr : r = (out, (ofList a', ofList b'), m'))
-    (hat : out.st = some .errAlloc → a' = a ∧ b' = b ∧ out = { st := some .errAlloc })
-    (href : out.st ≠ some .errAlloc → (out, (a', b')) = LSeq.step dbl P (a, b) op)
-    {ref : Nat} (eff : Mem.Eff m m' p q ref) (hcount : a.length + b.length + p = a'.length + b'.length + q)
+/-- an operation that changes (at most) the destination list -/
+theorem StepOk.of {dbl : Bool} {P : Params} {t1 t2 : Triple} {a b : List Nat} {op : Op} {m : Mem}
+    {r : Out × (Chain × Chain) × Mem}
+    (out : Out) (a' : List Nat) (m' : Mem) (p q : Nat)
+    (hr : r = (out, (ofList t1 a', ofList t2 b), m'))
+    (hat : out.st = some .errAlloc → a' = a ∧ out = { st := some .errAlloc })
+    (href : out.st ≠ some .errAlloc → (out, (a', b)) = LSeq.step dbl P (a, b) op)
+    {ref : Nat} (eff : Mem.Eff t1 m m' p q ref) (hcount : a.length + b.length + p = a'.length + b.length + q)
     (hna : m.sched = [] → out.st ≠ some .errAlloc)
     (hri : out.st = some .errAlloc ↔ 0 < ref := by simp) :
-    StepOk dbl P a b op m r a' b' := by
+    StepOk dbl P t1 t2 a b op m r a' b t1 t2 := by
   subst hr
-  exact ⟨rfl, hat, href, eff.fault, eff.libc, by have := eff.live; simp only []; omega, fun hs => ⟨eff.sched hs, hna hs⟩,
-    by simp only []; rw [eff.nref, hri]; omega⟩
+  refine ⟨rfl, Or.inl ⟨rfl, rfl⟩, fun h => ⟨(hat h).1, rfl, rfl, rfl, (hat h).2⟩, href, eff.fault, eff.frame, ?_,
+    fun hs => ⟨eff.sched hs, hna hs⟩, by simp only []; rw [eff.nref, hri]; omega⟩
+  intro t
+  simp only [ownedBy]
+  by_cases h1 : t1 = t
+  · subst h1; have := eff.live; simp only [if_true]; omega
+  · have := eff.frame.liveT (t' := t) (fun e => h1 e.symm); simp only [h1, if_false]; omega
+
+/-- `splice`/`splice_at` between lists on the same triple: nodes change hands, the ledger does not move -/
+theorem StepOk.ofMove {dbl : Bool} {P : Params} {t : Triple} {a b : List Nat} {op : Op} {m : Mem}
+    {r : Out × (Chain × Chain) × Mem}
+    (out : Out) (a' b' : List Nat)
+    (hr : r = (out, (ofList t a', ofList t b'), m))
+    (hne : out.st ≠ some .errAlloc)
+    (href : (out, (a', b')) = LSeq.step dbl P (a, b) op)
+    (hcount : a.length + b.length = a'.length + b'.length) :
+    StepOk dbl P t t a b op m r a' b' t t := by
+  subst hr
+  refine ⟨rfl, Or.inl ⟨rfl, rfl⟩, fun h => absurd h hne, fun _ => href, rfl, Mem.Frame.rfl' t m, ?_,
+    fun hs => ⟨hs, hne⟩, ⟨fun h => absurd h hne, fun h => absurd h (Nat.lt_irrefl _)⟩⟩
+  intro t'
+  simp only [ownedBy]
+  by_cases h1 : t = t' <;> simp [h1] <;> omega
+
+
+/-- the documented restriction on `splice`/`splice_at`: they move the nodes themselves, so both lists
+must sit on the same allocator triple -/
+def SpliceOk (t1 t2 : Triple) (op : Op) : Prop := (op = .splice ∨ ∃ i, op = .spliceAt i) → t1 = t2
+
+theorem ownedBy_dest_le (t1 t2 : Triple) (a b : List Nat) : a.length ≤ ownedBy t1 t2 a b t1 := by
+  simp [ownedBy]
 
 namespace DList
 
-theorem step_ok (P : Params) (a b : List Nat) (m : Mem) (hlive : a.length + b.length ≤ m.live) : ∀ (op : Op),
-    ∃ a' b', StepOk true P a b op m (step P (ofList a, ofList b) op m) a' b'
-  | .addFirst x => by
-    by_cases ha : m.alloc.1 = true
-    · exact ⟨x :: a, b, StepOk.of { st := some .ok } _ _ m.alloc.2 1 0 (by simp [step, addFirst_ofList, ha, LSeq.addFirst]) (by simp)
-        (by intro _; simp [LSeq.step, LSeq.addFirst]) (Mem.eff_alloc_true m ha) (by simp; omega) (by intro _; simp)⟩
-    · have ha' : m.alloc.1 = false := by simpa using ha
-      exact ⟨a, b, StepOk.of { st := some .errAlloc } _ _ m.alloc.2 0 0 (by simp [step, addFirst_ofList, ha']) (by simp)
-        (by simp) (Mem.eff_alloc_false m ha') rfl (by intro hs; simp_all [Mem.alloc_nil m hs, Mem.allocChain_nil _ 0 m hs])⟩
-  | .addLast x => by
-    by_cases ha : m.alloc.1 = true
-    · exact ⟨a ++ [x], b, StepOk.of { st := some .ok } _ _ m.alloc.2 1 0 (by simp [step, addLast_ofList, ha, LSeq.addLast]) (by simp)
-        (by intro _; simp [LSeq.step, LSeq.addLast]) (Mem.eff_alloc_true m ha) (by simp; omega) (by intro _; simp)⟩
-    · have ha' : m.alloc.1 = false := by simpa using ha
-      exact ⟨a, b, StepOk.of { st := some .errAlloc } _ _ m.alloc.2 0 0 (by simp [step, addLast_ofList, ha']) (by simp)
-        (by simp) (Mem.eff_alloc_false m ha') rfl (by intro hs; simp_all [Mem.alloc_nil m hs, Mem.allocChain_nil _ 0 m hs])⟩
-  | .addAt x i => by
+theorem step_ok_aux (P : Params) (t1 t2 : Triple) (a b : List Nat) (m : Mem) (hlive : a.length ≤ m.liveT t1) : ∀ (op : Op),
+    ((op = .splice ∨ ∃ i, op = .spliceAt i) → t1 = t2) →
+    ∃ a' b' t1' t2', StepOk true P t1 t2 a b op m (step P (ofList t1 a, ofList t2 b) op m) a' b' t1' t2'
+  | .addFirst x, _ => by
+    by_cases ha : (m.allocT t1).1 = true
+    · exact ⟨x :: a, b, t1, t2, StepOk.of { st := some .ok } _ (m.allocT t1).2 1 0 (by simp [step, addFirst_ofList, ha, LSeq.addFirst]) (by simp)
+        (by intro _; simp [LSeq.step, LSeq.addFirst]) (Mem.eff_alloc_true t1 m ha) (by simp; omega) (by intro _; simp)⟩
+    · have ha' : (m.allocT t1).1 = false := by simpa using ha
+      exact ⟨a, b, t1, t2, StepOk.of { st := some .errAlloc } _ (m.allocT t1).2 0 0 (by simp [step, addFirst_ofList, ha']) (by simp)
+        (by simp) (Mem.eff_alloc_false t1 m ha') rfl (by intro hs; simp_all [Mem.allocT_nil m t1 hs, Mem.allocChain_nil t1 _ 0 m hs])⟩
+  | .addLast x, _ => by
+    by_cases ha : (m.allocT t1).1 = true
+    · exact ⟨a ++ [x], b, t1, t2, StepOk.of { st := some .ok } _ (m.allocT t1).2 1 0 (by simp [step, addLast_ofList, ha, LSeq.addLast]) (by simp)
+        (by intro _; simp [LSeq.step, LSeq.addLast]) (Mem.eff_alloc_true t1 m ha) (by simp; omega) (by intro _; simp)⟩
+    · have ha' : (m.allocT t1).1 = false := by simpa using ha
+      exact ⟨a, b, t1, t2, StepOk.of { st := some .errAlloc } _ (m.allocT t1).2 0 0 (by simp [step, addLast_ofList, ha']) (by simp)
+        (by simp) (Mem.eff_alloc_false t1 m ha') rfl (by intro hs; simp_all [Mem.allocT_nil m t1 hs, Mem.allocChain_nil t1 _ 0 m hs])⟩
+  | .addAt x i, _ => by
     by_cases hi : i < a.length
-    · by_cases ha : m.alloc.1 = true
-      · exact ⟨a.insertIdx i x, b, StepOk.of { st := some .ok } _ _ m.alloc.2 1 0
+    · by_cases ha : (m.allocT t1).1 = true
+      · exact ⟨a.insertIdx i x, b, t1, t2, StepOk.of { st := some .ok } _ (m.allocT t1).2 1 0
           (by simp [step, addAt_ofList, ha, LSeq.addAt, hi]) (by simp)
-          (by intro _; simp [LSeq.step, LSeq.addAt, hi]) (Mem.eff_alloc_true m ha)
+          (by intro _; simp [LSeq.step, LSeq.addAt, hi]) (Mem.eff_alloc_true t1 m ha)
           (by simp [List.length_insertIdx, Nat.le_of_lt hi]; omega) (by intro _; simp)⟩
-      · have ha' : m.alloc.1 = false := by simpa using ha
-        exact ⟨a, b, StepOk.of { st := some .errAlloc } _ _ m.alloc.2 0 0
+      · have ha' : (m.allocT t1).1 = false := by simpa using ha
+        exact ⟨a, b, t1, t2, StepOk.of { st := some .errAlloc } _ (m.allocT t1).2 0 0
           (by simp [step, addAt_ofList, ha', LSeq.addAt, hi]) (by simp)
-          (by simp) (Mem.eff_alloc_false m ha') rfl (by intro hs; simp_all [Mem.alloc_nil m hs, Mem.allocChain_nil _ 0 m hs])⟩
-    · exact ⟨a, b, StepOk.of { st := some .errOutOfRange } _ _ m 0 0 (by simp [step, addAt_ofList, LSeq.addAt, hi]) (by simp)
-        (by intro _; simp [LSeq.step, LSeq.addAt, hi]) (Mem.Eff.rfl' m) rfl (by intro _; simp)⟩
-  | .addAll => by
+          (by simp) (Mem.eff_alloc_false t1 m ha') rfl (by intro hs; simp_all [Mem.allocT_nil m t1 hs, Mem.allocChain_nil t1 _ 0 m hs])⟩
+    · exact ⟨a, b, t1, t2, StepOk.of { st := some .errOutOfRange } _ m 0 0 (by simp [step, addAt_ofList, LSeq.addAt, hi]) (by simp)
+        (by intro _; simp [LSeq.step, LSeq.addAt, hi]) (Mem.Eff.rfl' t1 m) rfl (by intro _; simp)⟩
+  | .addAll, _ => by
     by_cases hy : b = []
-    · exact ⟨a, b, StepOk.of { st := some .ok } _ _ m 0 0 (by simp [step, addAll_ofList, hy]) (by simp)
-        (by intro _; simp [LSeq.step, LSeq.addAll, hy]) (Mem.Eff.rfl' m) rfl (by intro _; simp)⟩
-    · by_cases ha : (m.allocChain b.length 0).1 = true
-      · exact ⟨a ++ b, b, StepOk.of { st := some .ok } _ _ (m.allocChain b.length 0).2 b.length 0
+    · exact ⟨a, b, t1, t2, StepOk.of { st := some .ok } _ m 0 0 (by simp [step, addAll_ofList, hy]) (by simp)
+        (by intro _; simp [LSeq.step, LSeq.addAll, hy]) (Mem.Eff.rfl' t1 m) rfl (by intro _; simp)⟩
+    · by_cases ha : (m.allocChain t1 b.length 0).1 = true
+      · exact ⟨a ++ b, b, t1, t2, StepOk.of { st := some .ok } _ (m.allocChain t1 b.length 0).2 b.length 0
           (by simp [step, addAll_ofList, hy, ha, LSeq.addAll]) (by simp)
-          (by intro _; simp [LSeq.step, LSeq.addAll]) (Mem.eff_allocChain_true m _ ha) (by simp) (by intro _; simp)⟩
-      · have ha' : (m.allocChain b.length 0).1 = false := by simpa using ha
-        exact ⟨a, b, StepOk.of { st := some .errAlloc } _ _ (m.allocChain b.length 0).2 0 0
-          (by simp [step, addAll_ofList, hy, ha']) (by simp) (by simp) (Mem.eff_allocChain_false m _ ha') rfl (by intro hs; simp_all [Mem.alloc_nil m hs, Mem.allocChain_nil _ 0 m hs])⟩
-  | .addAllAt i => by
+          (by intro _; simp [LSeq.step, LSeq.addAll]) (Mem.eff_allocChain_true t1 m _ ha) (by simp) (by intro _; simp)⟩
+      · have ha' : (m.allocChain t1 b.length 0).1 = false := by simpa using ha
+        exact ⟨a, b, t1, t2, StepOk.of { st := some .errAlloc } _ (m.allocChain t1 b.length 0).2 0 0
+          (by simp [step, addAll_ofList, hy, ha']) (by simp) (by simp) (Mem.eff_allocChain_false t1 m _ ha') rfl (by intro hs; simp_all [Mem.allocT_nil m t1 hs, Mem.allocChain_nil t1 _ 0 m hs])⟩
+  | .addAllAt i, _ => by
     by_cases hy : b = []
-    · exact ⟨a, b, StepOk.of { st := some .ok } _ _ m 0 0 (by simp [step, addAllAt_ofList, LSeq.addAllAt, hy]) (by simp)
-        (by intro _; simp [LSeq.step, LSeq.addAllAt, hy]) (Mem.Eff.rfl' m) rfl (by intro _; simp)⟩
+    · exact ⟨a, b, t1, t2, StepOk.of { st := some .ok } _ m 0 0 (by simp [step, addAllAt_ofList, LSeq.addAllAt, hy]) (by simp)
+        (by intro _; simp [LSeq.step, LSeq.addAllAt, hy]) (Mem.Eff.rfl' t1 m) rfl (by intro _; simp)⟩
     · by_cases hi : i ≤ a.length
-      · by_cases ha : (m.allocChain b.length 0).1 = true
-        · exact ⟨a.take i ++ b ++ a.drop i, b, StepOk.of { st := some .ok } _ _ (m.allocChain b.length 0).2 b.length 0
+      · by_cases ha : (m.allocChain t1 b.length 0).1 = true
+        · exact ⟨a.take i ++ b ++ a.drop i, b, t1, t2, StepOk.of { st := some .ok } _ (m.allocChain t1 b.length 0).2 b.length 0
             (by simp [step, addAllAt_ofList, LSeq.addAllAt, hy, hi, ha]) (by simp)
-            (by intro _; simp [LSeq.step, LSeq.addAllAt, hy, hi]) (Mem.eff_allocChain_true m _ ha)
+            (by intro _; simp [LSeq.step, LSeq.addAllAt, hy, hi]) (Mem.eff_allocChain_true t1 m _ ha)
             (by simp [List.length_take, List.length_drop]; omega) (by intro _; simp)⟩
-        · have ha' : (m.allocChain b.length 0).1 = false := by simpa using ha
-          exact ⟨a, b, StepOk.of { st := some .errAlloc } _ _ (m.allocChain b.length 0).2 0 0
+        · have ha' : (m.allocChain t1 b.length 0).1 = false := by simpa using ha
+          exact ⟨a, b, t1, t2, StepOk.of { st := some .errAlloc } _ (m.allocChain t1 b.length 0).2 0 0
             (by simp [step, addAllAt_ofList, LSeq.addAllAt, hy, hi, ha']) (by simp) (by simp)
-            (Mem.eff_allocChain_false m _ ha') rfl (by intro hs; simp_all [Mem.alloc_nil m hs, Mem.allocChain_nil _ 0 m hs])⟩
-      · exact ⟨a, b, StepOk.of { st := some .errOutOfRange } _ _ m 0 0
+            (Mem.eff_allocChain_false t1 m _ ha') rfl (by intro hs; simp_all [Mem.allocT_nil m t1 hs, Mem.allocChain_nil t1 _ 0 m hs])⟩
+      · exact ⟨a, b, t1, t2, StepOk.of { st := some .errOutOfRange } _ m 0 0
           (by simp [step, addAllAt_ofList, LSeq.addAllAt, hy, hi]) (by simp)
-          (by intro _; simp [LSeq.step, LSeq.addAllAt, hy, hi]) (Mem.Eff.rfl' m) rfl (by intro _; simp)⟩
-  | .splice => by
+          (by intro _; simp [LSeq.step, LSeq.addAllAt, hy, hi]) (Mem.Eff.rfl' t1 m) rfl (by intro _; simp)⟩
+  | .splice, hc => by
     by_cases hy : b = []
-    · exact ⟨a, b, StepOk.of { st := some .ok } _ _ m 0 0 (by simp [step, splice_ofList, LSeq.splice, hy]) (by simp)
-        (by intro _; simp [LSeq.step, LSeq.splice, hy]) (Mem.Eff.rfl' m) rfl (by intro _; simp)⟩
-    · exact ⟨a ++ b, [], StepOk.of { st := some .ok } _ _ m 0 0 (by simp [step, splice_ofList, LSeq.splice, hy]) (by simp)
-        (by intro _; simp [LSeq.step, LSeq.splice]) (Mem.Eff.rfl' m) (by simp) (by intro _; simp)⟩
-  | .spliceAt i => by
+    · exact ⟨a, b, t1, t2, StepOk.of { st := some .ok } _ m 0 0 (by simp [step, splice_ofList, LSeq.splice, hy]) (by simp)
+        (by intro _; simp [LSeq.step, LSeq.splice, hy]) (Mem.Eff.rfl' t1 m) rfl (by intro _; simp)⟩
+    · have ht : t1 = t2 := hc (Or.inl rfl)
+      subst ht
+      exact ⟨a ++ b, [], t1, t1, StepOk.ofMove { st := some .ok } _ _ (by simp [step, splice_ofList, LSeq.splice, hy]) (by simp)
+        (by simp [LSeq.step, LSeq.splice]) (by simp)⟩
+  | .spliceAt i, hc => by
     by_cases hy : b = []
-    · exact ⟨a, b, StepOk.of { st := some .ok } _ _ m 0 0 (by simp [step, spliceAt_ofList, LSeq.spliceAt, hy]) (by simp)
-        (by intro _; simp [LSeq.step, LSeq.spliceAt, hy]) (Mem.Eff.rfl' m) rfl (by intro _; simp)⟩
+    · exact ⟨a, b, t1, t2, StepOk.of { st := some .ok } _ m 0 0 (by simp [step, spliceAt_ofList, LSeq.spliceAt, hy]) (by simp)
+        (by intro _; simp [LSeq.step, LSeq.spliceAt, hy]) (Mem.Eff.rfl' t1 m) rfl (by intro _; simp)⟩
     · by_cases hi : i ≤ a.length
-      · exact ⟨a.take i ++ b ++ a.drop i, [], StepOk.of { st := some .ok } _ _ m 0 0
+      · have ht : t1 = t2 := hc (Or.inr ⟨i, rfl⟩)
+        subst ht
+        exact ⟨a.take i ++ b ++ a.drop i, [], t1, t1, StepOk.ofMove { st := some .ok } _ _
           (by simp [step, spliceAt_ofList, LSeq.spliceAt, hy, hi]) (by simp)
-          (by intro _; simp [LSeq.step, LSeq.spliceAt, hy, hi]) (Mem.Eff.rfl' m)
-          (by simp [List.length_take, List.length_drop]; omega) (by intro _; simp)⟩
-      · exact ⟨a, b, StepOk.of { st := some .errOutOfRange } _ _ m 0 0
+          (by simp [LSeq.step, LSeq.spliceAt, hy, hi])
+          (by simp [List.length_take, List.length_drop]; omega)⟩
+      · exact ⟨a, b, t1, t2, StepOk.of { st := some .errOutOfRange } _ m 0 0
           (by simp [step, spliceAt_ofList, LSeq.spliceAt, hy, hi]) (by simp)
-          (by intro _; simp [LSeq.step, LSeq.spliceAt, hy, hi]) (Mem.Eff.rfl' m) rfl (by intro _; simp)⟩
-  | .remove x => by
+          (by intro _; simp [LSeq.step, LSeq.spliceAt, hy, hi]) (Mem.Eff.rfl' t1 m) rfl (by intro _; simp)⟩
+  | .remove x, _ => by
     by_cases hx : x ∈ a
     · have hpos : 0 < a.length := List.length_pos_of_mem hx
-      exact ⟨a.erase x, b, StepOk.of { st := some .ok, val := some x } _ _ m.free 0 1
+      exact ⟨a.erase x, b, t1, t2, StepOk.of { st := some .ok, val := some x } _ (m.freeT t1) 0 1
         (by simp [step, remove_ofList, LSeq.remove, hx]) (by simp)
-        (by intro _; simp [LSeq.step, LSeq.remove, hx]) (Mem.eff_free m (by omega))
+        (by intro _; simp [LSeq.step, LSeq.remove, hx]) (Mem.eff_free t1 m (by omega))
         (by rw [List.length_erase_of_mem hx]; omega) (by intro _; simp)⟩
-    · exact ⟨a, b, StepOk.of { st := some .errValueNotFound } _ _ m 0 0
+    · exact ⟨a, b, t1, t2, StepOk.of { st := some .errValueNotFound } _ m 0 0
         (by simp [step, remove_ofList, LSeq.remove, hx]) (by simp)
-        (by intro _; simp [LSeq.step, LSeq.remove, hx]) (Mem.Eff.rfl' m) rfl (by intro _; simp)⟩
-  | .removeAt i => by
+        (by intro _; simp [LSeq.step, LSeq.remove, hx]) (Mem.Eff.rfl' t1 m) rfl (by intro _; simp)⟩
+  | .removeAt i, _ => by
     by_cases hi : i < a.length
-    · exact ⟨a.eraseIdx i, b, StepOk.of { st := some .ok, val := some (a.getD i 0) } _ _ m.free 0 1
+    · exact ⟨a.eraseIdx i, b, t1, t2, StepOk.of { st := some .ok, val := some (a.getD i 0) } _ (m.freeT t1) 0 1
         (by simp [step, removeAt_ofList, LSeq.removeAt, hi]) (by simp)
-        (by intro _; simp [LSeq.step, LSeq.removeAt, hi]) (Mem.eff_free m (by omega))
+        (by intro _; simp [LSeq.step, LSeq.removeAt, hi]) (Mem.eff_free t1 m (by omega))
         (by rw [List.length_eraseIdx, if_pos hi]; omega) (by intro _; simp)⟩
-    · exact ⟨a, b, StepOk.of { st := some .errOutOfRange } _ _ m 0 0
+    · exact ⟨a, b, t1, t2, StepOk.of { st := some .errOutOfRange } _ m 0 0
         (by simp [step, removeAt_ofList, LSeq.removeAt, hi]) (by simp)
-        (by intro _; simp [LSeq.step, LSeq.removeAt, hi]) (Mem.Eff.rfl' m) rfl (by intro _; simp)⟩
-  | .removeFirst => by
+        (by intro _; simp [LSeq.step, LSeq.removeAt, hi]) (Mem.Eff.rfl' t1 m) rfl (by intro _; simp)⟩
+  | .removeFirst, _ => by
     cases a with
-    | nil => exact ⟨[], b, StepOk.of { st := some .errValueNotFound } _ _ m 0 0
+    | nil => exact ⟨[], b, t1, t2, StepOk.of { st := some .errValueNotFound } _ m 0 0
         (by simp [step, removeFirst_ofList, LSeq.removeFirst]) (by simp)
-        (by intro _; simp [LSeq.step, LSeq.removeFirst]) (Mem.Eff.rfl' m) rfl (by intro _; simp)⟩
-    | cons y ys => exact ⟨ys, b, StepOk.of { st := some .ok, val := some y } _ _ m.free 0 1
+        (by intro _; simp [LSeq.step, LSeq.removeFirst]) (Mem.Eff.rfl' t1 m) rfl (by intro _; simp)⟩
+    | cons y ys => exact ⟨ys, b, t1, t2, StepOk.of { st := some .ok, val := some y } _ (m.freeT t1) 0 1
         (by simp [step, removeFirst_ofList, LSeq.removeFirst]) (by simp)
-        (by intro _; simp [LSeq.step, LSeq.removeFirst]) (Mem.eff_free m (by simp at hlive; omega))
+        (by intro _; simp [LSeq.step, LSeq.removeFirst]) (Mem.eff_free t1 m (by simp at hlive; omega))
         (by simp; omega) (by intro _; simp)⟩
-  | .removeLast => by
+  | .removeLast, _ => by
     by_cases ha : a = []
     · subst ha
-      exact ⟨[], b, StepOk.of { st := some .errValueNotFound } _ _ m 0 0
+      exact ⟨[], b, t1, t2, StepOk.of { st := some .errValueNotFound } _ m 0 0
         (by simp [step, removeLast_ofList, LSeq.removeLast]) (by simp)
-        (by intro _; simp [LSeq.step, LSeq.removeLast]) (Mem.Eff.rfl' m) rfl (by intro _; simp)⟩
+        (by intro _; simp [LSeq.step, LSeq.removeLast]) (Mem.Eff.rfl' t1 m) rfl (by intro _; simp)⟩
     · have hpos : 0 < a.length := List.length_pos_iff.2 ha
-      exact ⟨a.dropLast, b, StepOk.of { st := some .ok, val := some (a.getLastD 0) } _ _ m.free 0 1
+      exact ⟨a.dropLast, b, t1, t2, StepOk.of { st := some .ok, val := some (a.getLastD 0) } _ (m.freeT t1) 0 1
         (by simp [step, removeLast_ofList, LSeq.removeLast, ha]) (by simp)
-        (by intro _; simp [LSeq.step, LSeq.removeLast, ha]) (Mem.eff_free m (by omega))
+        (by intro _; simp [LSeq.step, LSeq.removeLast, ha]) (Mem.eff_free t1 m (by omega))
         (by simp; omega) (by intro _; simp)⟩
-  | .removeAll => by
+  | .removeAll, _ => by
     by_cases ha : a = []
     · subst ha
-      exact ⟨[], b, StepOk.of { st := some .errValueNotFound } _ _ m 0 0
+      exact ⟨[], b, t1, t2, StepOk.of { st := some .errValueNotFound } _ m 0 0
         (by simp [step, removeAll_ofList, LSeq.removeAll, Mem.freeN]) (by simp)
-        (by intro _; simp [LSeq.step, LSeq.removeAll]) (Mem.Eff.rfl' m) rfl (by intro _; simp)⟩
-    · exact ⟨[], b, StepOk.of { st := some .ok, vals := a } _ _ (Mem.freeN a.length m) 0 a.length
+        (by intro _; simp [LSeq.step, LSeq.removeAll]) (Mem.Eff.rfl' t1 m) rfl (by intro _; simp)⟩
+    · exact ⟨[], b, t1, t2, StepOk.of { st := some .ok, vals := a } _ (Mem.freeN t1 a.length m) 0 a.length
         (by simp [step, removeAll_ofList, LSeq.removeAll, ha]) (by simp)
-        (by intro _; simp [LSeq.step, LSeq.removeAll, ha]) (Mem.eff_freeN m _ (by omega)) (by simp; omega) (by intro _; simp)⟩
-  | .replaceAt x i => by
+        (by intro _; simp [LSeq.step, LSeq.removeAll, ha]) (Mem.eff_freeN t1 m _ (by omega)) (by simp; omega) (by intro _; simp)⟩
+  | .replaceAt x i, _ => by
     by_cases hi : i < a.length
-    · exact ⟨a.set i x, b, StepOk.of { st := some .ok, val := some (a.getD i 0) } _ _ m 0 0
+    · exact ⟨a.set i x, b, t1, t2, StepOk.of { st := some .ok, val := some (a.getD i 0) } _ m 0 0
         (by simp [step, replaceAt_ofList, LSeq.replaceAt, hi]) (by simp)
-        (by intro _; simp [LSeq.step, LSeq.replaceAt, hi]) (Mem.Eff.rfl' m) (by simp) (by intro _; simp)⟩
-    · exact ⟨a, b, StepOk.of { st := some .errOutOfRange } _ _ m 0 0
+        (by intro _; simp [LSeq.step, LSeq.replaceAt, hi]) (Mem.Eff.rfl' t1 m) (by simp) (by intro _; simp)⟩
+    · exact ⟨a, b, t1, t2, StepOk.of { st := some .errOutOfRange } _ m 0 0
         (by simp [step, replaceAt_ofList, LSeq.replaceAt, hi]) (by simp)
-        (by intro _; simp [LSeq.step, LSeq.replaceAt, hi]) (Mem.Eff.rfl' m) rfl (by intro _; simp)⟩
-  | .reverse => ⟨a.reverse, b, StepOk.of {} _ _ m 0 0 (by simp [step, reverse_ofList]) (by simp)
-        (by intro _; simp [LSeq.step]) (Mem.Eff.rfl' m) (by simp) (by intro _; simp)⟩
-  | .filterMut => by
+        (by intro _; simp [LSeq.step, LSeq.replaceAt, hi]) (Mem.Eff.rfl' t1 m) rfl (by intro _; simp)⟩
+  | .reverse, _ => ⟨a.reverse, b, t1, t2, StepOk.of {} _ m 0 0 (by simp [step, reverse_ofList]) (by simp)
+        (by intro _; simp [LSeq.step]) (Mem.Eff.rfl' t1 m) (by simp) (by intro _; simp)⟩
+  | .filterMut, _ => by
     have hle : (a.filter P.pred).length ≤ a.length := List.length_filter_le _ _
     by_cases ha : a = []
     · subst ha
-      exact ⟨[], b, StepOk.of { st := some .errOutOfRange } _ _ m 0 0
+      exact ⟨[], b, t1, t2, StepOk.of { st := some .errOutOfRange } _ m 0 0
         (by simp [step, filterMut_ofList, LSeq.filterMut, Mem.freeN]) (by simp)
-        (by intro _; simp [LSeq.step, LSeq.filterMut]) (Mem.Eff.rfl' m) rfl (by intro _; simp)⟩
-    · exact ⟨a.filter P.pred, b, StepOk.of { st := some .ok } _ _ (Mem.freeN (a.length - (a.filter P.pred).length) m) 0
+        (by intro _; simp [LSeq.step, LSeq.filterMut]) (Mem.Eff.rfl' t1 m) rfl (by intro _; simp)⟩
+    · exact ⟨a.filter P.pred, b, t1, t2, StepOk.of { st := some .ok } _ (Mem.freeN t1 (a.length - (a.filter P.pred).length) m) 0
           (a.length - (a.filter P.pred).length)
         (by simp [step, filterMut_ofList, LSeq.filterMut, ha]) (by simp)
-        (by intro _; simp [LSeq.step, LSeq.filterMut, ha]) (Mem.eff_freeN m _ (by omega)) (by omega) (by intro _; simp)⟩
-  | .getFirst => ⟨a, b, StepOk.of { st := some (LSeq.getFirst a).1, val := (LSeq.getFirst a).2 } _ _ m 0 0
+        (by intro _; simp [LSeq.step, LSeq.filterMut, ha]) (Mem.eff_freeN t1 m _ (by omega)) (by omega) (by intro _; simp)⟩
+  | .getFirst, _ => ⟨a, b, t1, t2, StepOk.of { st := some (LSeq.getFirst a).1, val := (LSeq.getFirst a).2 } _ m 0 0
         (by simp [step, getFirst_ofList]) (by cases a <;> simp [LSeq.getFirst])
-        (by intro _; simp [LSeq.step]) (Mem.Eff.rfl' m) rfl (by intro _; cases a <;> simp [LSeq.getFirst]) (by cases a <;> simp [LSeq.getFirst])⟩
-  | .getLast => ⟨a, b, StepOk.of { st := some (LSeq.getLast a).1, val := (LSeq.getLast a).2 } _ _ m 0 0
+        (by intro _; simp [LSeq.step]) (Mem.Eff.rfl' t1 m) rfl (by intro _; cases a <;> simp [LSeq.getFirst]) (by cases a <;> simp [LSeq.getFirst])⟩
+  | .getLast, _ => ⟨a, b, t1, t2, StepOk.of { st := some (LSeq.getLast a).1, val := (LSeq.getLast a).2 } _ m 0 0
         (by simp [step, getLast_ofList]) (by by_cases h : a = [] <;> simp [LSeq.getLast, h])
-        (by intro _; simp [LSeq.step]) (Mem.Eff.rfl' m) rfl (by intro _; by_cases h : a = [] <;> simp [LSeq.getLast, h]) (by by_cases h : a = [] <;> simp [LSeq.getLast, h])⟩
-  | .getAt i => ⟨a, b, StepOk.of { st := some (LSeq.getAt a i).1, val := (LSeq.getAt a i).2 } _ _ m 0 0
+        (by intro _; simp [LSeq.step]) (Mem.Eff.rfl' t1 m) rfl (by intro _; by_cases h : a = [] <;> simp [LSeq.getLast, h]) (by by_cases h : a = [] <;> simp [LSeq.getLast, h])⟩
+  | .getAt i, _ => ⟨a, b, t1, t2, StepOk.of { st := some (LSeq.getAt a i).1, val := (LSeq.getAt a i).2 } _ m 0 0
         (by simp [step, getAt_ofList]) (by by_cases h : i < a.length <;> simp [LSeq.getAt, h])
-        (by intro _; simp [LSeq.step]) (Mem.Eff.rfl' m) rfl (by intro _; by_cases h : i < a.length <;> simp [LSeq.getAt, h]) (by by_cases h : i < a.length <;> simp [LSeq.getAt, h])⟩
-  | .indexOf x => ⟨a, b, StepOk.of { st := some (LSeq.indexOf P.cmp a x).1, val := (LSeq.indexOf P.cmp a x).2 } _ _ m 0 0
+        (by intro _; simp [LSeq.step]) (Mem.Eff.rfl' t1 m) rfl (by intro _; by_cases h : i < a.length <;> simp [LSeq.getAt, h]) (by by_cases h : i < a.length <;> simp [LSeq.getAt, h])⟩
+  | .indexOf x, _ => ⟨a, b, t1, t2, StepOk.of { st := some (LSeq.indexOf P.cmp a x).1, val := (LSeq.indexOf P.cmp a x).2 } _ m 0 0
         (by simp [step, indexOf_ofList])
         (by simp only [LSeq.indexOf]; cases a.findIdx? fun y => P.cmp y x == 0 <;> simp)
-        (by intro _; simp [LSeq.step]) (Mem.Eff.rfl' m) rfl (by intro _; simp only [LSeq.indexOf]; cases a.findIdx? fun y => P.cmp y x == 0 <;> simp) (by simp only [LSeq.indexOf]; cases a.findIdx? fun y => P.cmp y x == 0 <;> simp)⟩
-  | .contains x => ⟨a, b, StepOk.of { val := some (LSeq.contains a x) } _ _ m 0 0
-        (by simp [step, contains_ofList]) (by simp) (by intro _; simp [LSeq.step]) (Mem.Eff.rfl' m) rfl (by intro _; simp)⟩
-  | .containsValue x => ⟨a, b, StepOk.of { val := some (LSeq.containsValue P.cmp a x) } _ _ m 0 0
-        (by simp [step, containsValue_ofList]) (by simp) (by intro _; simp [LSeq.step]) (Mem.Eff.rfl' m) rfl (by intro _; simp)⟩
-  | .size => ⟨a, b, StepOk.of { val := some a.length } _ _ m 0 0
-        (by simp [step]) (by simp) (by intro _; simp [LSeq.step]) (Mem.Eff.rfl' m) rfl (by intro _; simp)⟩
-  | .toArray => by
+        (by intro _; simp [LSeq.step]) (Mem.Eff.rfl' t1 m) rfl (by intro _; simp only [LSeq.indexOf]; cases a.findIdx? fun y => P.cmp y x == 0 <;> simp) (by simp only [LSeq.indexOf]; cases a.findIdx? fun y => P.cmp y x == 0 <;> simp)⟩
+  | .contains x, _ => ⟨a, b, t1, t2, StepOk.of { val := some (LSeq.contains a x) } _ m 0 0
+        (by simp [step, contains_ofList]) (by simp) (by intro _; simp [LSeq.step]) (Mem.Eff.rfl' t1 m) rfl (by intro _; simp)⟩
+  | .containsValue x, _ => ⟨a, b, t1, t2, StepOk.of { val := some (LSeq.containsValue P.cmp a x) } _ m 0 0
+        (by simp [step, containsValue_ofList]) (by simp) (by intro _; simp [LSeq.step]) (Mem.Eff.rfl' t1 m) rfl (by intro _; simp)⟩
+  | .size, _ => ⟨a, b, t1, t2, StepOk.of { val := some a.length } _ m 0 0
+        (by simp [step]) (by simp) (by intro _; simp [LSeq.step]) (Mem.Eff.rfl' t1 m) rfl (by intro _; simp)⟩
+  | .toArray, _ => by
     by_cases ha : a = []
     · subst ha
-      exact ⟨[], b, StepOk.of { st := some .errInvalidRange } _ _ m 0 0
+      exact ⟨[], b, t1, t2, StepOk.of { st := some .errInvalidRange } _ m 0 0
         (by simp [step, toArray_ofList, LSeq.toArray]) (by simp)
-        (by intro _; simp [LSeq.step, LSeq.toArray]) (Mem.Eff.rfl' m) rfl (by intro _; simp)⟩
-    · by_cases hal : m.alloc.1 = true
-      · have e1 := Mem.eff_alloc_true m hal
-        have e2 := Mem.eff_free m.alloc.2 (by have := e1.live; omega)
-        exact ⟨a, b, StepOk.of { st := some .ok, vals := a } _ _ m.alloc.2.free (1 + 0) (0 + 1)
+        (by intro _; simp [LSeq.step, LSeq.toArray]) (Mem.Eff.rfl' t1 m) rfl (by intro _; simp)⟩
+    · by_cases hal : (m.allocT t1).1 = true
+      · have e1 := Mem.eff_alloc_true t1 m hal
+        have e2 := Mem.eff_free t1 (m.allocT t1).2 (by have := e1.live; omega)
+        exact ⟨a, b, t1, t2, StepOk.of { st := some .ok, vals := a } _ ((m.allocT t1).2.freeT t1) (1 + 0) (0 + 1)
           (by simp [step, toArray_ofList, LSeq.toArray, ha, hal]) (by simp)
           (by intro _; simp [LSeq.step, LSeq.toArray, ha]) (e1.trans e2) (by omega) (by intro _; simp)⟩
-      · have hal' : m.alloc.1 = false := by simpa using hal
-        exact ⟨a, b, StepOk.of { st := some .errAlloc } _ _ m.alloc.2 0 0
+      · have hal' : (m.allocT t1).1 = false := by simpa using hal
+        exact ⟨a, b, t1, t2, StepOk.of { st := some .errAlloc } _ (m.allocT t1).2 0 0
           (by simp [step, toArray_ofList, LSeq.toArray, ha, hal']) (by simp) (by simp)
-          (Mem.eff_alloc_false m hal') rfl (by intro hs; simp_all [Mem.alloc_nil m hs, Mem.allocChain_nil _ 0 m hs])⟩
-  | .foreach => ⟨a, b, StepOk.of { vals := a } _ _ m 0 0
-        (by simp [step, foreach_ofList]) (by simp) (by intro _; simp [LSeq.step]) (Mem.Eff.rfl' m) rfl (by intro _; simp)⟩
-  | .swapRoles => ⟨b, a, StepOk.of {} _ _ m 0 0
-        (by simp [step]) (by simp) (by intro _; simp [LSeq.step]) (Mem.Eff.rfl' m) (by omega) (by intro _; simp)⟩
+          (Mem.eff_alloc_false t1 m hal') rfl (by intro hs; simp_all [Mem.allocT_nil m t1 hs, Mem.allocChain_nil t1 _ 0 m hs])⟩
+  | .foreach, _ => ⟨a, b, t1, t2, StepOk.of { vals := a } _ m 0 0
+        (by simp [step, foreach_ofList]) (by simp) (by intro _; simp [LSeq.step]) (Mem.Eff.rfl' t1 m) rfl (by intro _; simp)⟩
+  | .swapRoles, _ => by
+    refine ⟨b, a, t2, t1, ⟨by simp [step], Or.inr ⟨rfl, rfl⟩, by simp [step], by intro _; simp [step, LSeq.step], rfl,
+      Mem.Frame.rfl' t1 m, ?_, fun hs => ⟨hs, by simp [step]⟩, by simp [step]⟩⟩
+    intro t
+    simp only [step, ownedBy]
+    omega
+
+theorem step_ok (P : Params) (t1 t2 : Triple) (a b : List Nat) (m : Mem) (hlive : ∀ t, ownedBy t1 t2 a b t ≤ m.liveT t)
+    (op : Op) (hc : SpliceOk t1 t2 op) :
+    ∃ a' b' t1' t2', StepOk true P t1 t2 a b op m (step P (ofList t1 a, ofList t2 b) op m) a' b' t1' t2' :=
+  step_ok_aux P t1 t2 a b m (Nat.le_trans (ownedBy_dest_le t1 t2 a b) (hlive t1)) op hc
 end DList
 end CC
